@@ -173,6 +173,10 @@ class InterSystemRecurrenceNetwork(InteractingNetworks):
             else:
                 self.x_embedded = self.x
                 self.y_embedded = self.y
+            #  node numbers refer to the (embedded) state vectors
+            self.N_x = self.x_embedded.shape[0]
+            self.N_y = self.y_embedded.shape[0]
+            self.N = self.N_x + self.N_y
 
             #  Get threshold or recurrence rate from **kwds, construct
             #  ISRN accordingly
